@@ -703,7 +703,7 @@ def run_world(mains, schedule=None, policy="FIFO", fine=False, kill=None, max_st
         wd = Path(root_override)
         keep_dir = True
     else:
-        wd = Path(tempfile.mkdtemp(prefix="vw", dir="/dev/shm" if os.path.isdir("/dev/shm") else None))
+        wd = Path(tempfile.mkdtemp(prefix="vw", dir=os.environ.get("VERIF_SCRATCH", "/dev/shm")))
     hub = Hub(schedule, policy, max_steps, kill, on_step, expect_widths)
     world = World(wd, fine)
     HUB, W = hub, world
